@@ -14,7 +14,8 @@ C13 driver ops:
   msg <hex>                                                     is a WebSocket message exactly one unit?
   pw <ch> <data-hex>                                            Packet.Write: the chunks written
   wsc <ch> <data-hex>                                           the ws consumers: the messages sent (Gen flag skipEmpty)
-  bconn <bufSize> {W <size> <sockLen> <bufLen> | F <sockLen> <bufLen>}  buffered.Conn against observed lengths (write k carries the running byte counter)
+  bconn <bufSize> {W|S|C|B <size> <sockLen> <bufLen> | F <sockLen> <bufLen>}  buffered.Conn against observed lengths (write k carries the running byte counter);
+      W = Write, S / C / B = handed over by a caller that probes for WriteString / ReadFrom / WriteByte (Gen.bconnMethods decides what it finds)
 -/
 namespace IpcHub.Drv.C13
 open IpcHub.Writers IpcHub.Drv
@@ -82,6 +83,16 @@ def genBytes (start n : Nat) : Bytes := (List.range n).map (fun i => UInt8.ofNat
 
 def checksum (b : Bytes) : Nat := b.foldl (fun h x => (h * 31 + x.toNat) % 4294967296) 7
 
+mutual
+/-- a write handed over through a probed method: what `Write` does, provided the type does not have the method -/
+partial def viaStep (c : BConn) (i : Nat) (dec : String) (all : Bytes) (v : Via) (n sl bl : String) (r : List String) : String :=
+  let p := genBytes (all.length + 1) n.toNat!
+  match c.writeVia IpcHub.Gen.bconnMethods v p false, c.writeVia IpcHub.Gen.bconnMethods v p true with
+  | some a, some b =>
+    if a.sock.length == sl.toNat! && a.buf.length == bl.toNat! then bconnLoop a (i + 1) (dec ++ "0") (all ++ p) r
+    else if b.sock.length == sl.toNat! && b.buf.length == bl.toNat! then bconnLoop b (i + 1) (dec ++ "1") (all ++ p) r
+    else s!"mismatch at={i} via={v.method} model0={a.sock.length}/{a.buf.length} model1={b.sock.length}/{b.buf.length}"
+  | _, _ => s!"unmodelled at={i} method={v.method}"
 partial def bconnLoop (c : BConn) (i : Nat) (dec : String) (all : Bytes) : List String → String
   | [] =>
     let specOk := c.sock ++ c.buf == all
@@ -93,11 +104,15 @@ partial def bconnLoop (c : BConn) (i : Nat) (dec : String) (all : Bytes) : List 
     if a.sock.length == sl.toNat! && a.buf.length == bl.toNat! then bconnLoop a (i + 1) (dec ++ "0") (all ++ p) r
     else if b.sock.length == sl.toNat! && b.buf.length == bl.toNat! then bconnLoop b (i + 1) (dec ++ "1") (all ++ p) r
     else s!"mismatch at={i} model0={a.sock.length}/{a.buf.length} model1={b.sock.length}/{b.buf.length}"
+  | "S" :: n :: sl :: bl :: r => viaStep c i dec all .writeString n sl bl r
+  | "C" :: n :: sl :: bl :: r => viaStep c i dec all .readFrom n sl bl r
+  | "B" :: n :: sl :: bl :: r => viaStep c i dec all .writeByte n sl bl r
   | "F" :: sl :: bl :: r =>
     let a := c.flush
     if a.sock.length == sl.toNat! && a.buf.length == bl.toNat! then bconnLoop a (i + 1) dec all r
     else s!"mismatch at={i} model={a.sock.length}/{a.buf.length}"
   | _ => "bad-op"
+end
 
 def parseInt (s : String) : Int :=
   if s.startsWith "-" then -((s.drop 1).toNat! : Int) else (s.toNat! : Int)
